@@ -78,8 +78,9 @@ func main() {
 
 	// ---- 2. crafted: F12 witness and the round-robin probe with a topic nobody subscribes to (F13)
 	doPlan("sticky", "other", f12Witness())
+	doPlan("sticky", "other", parseGroup("m1:t2:g1:t1/0,t2/0;m2:t1:g2:t1/0,t1/1,t1/2;m3:t1:g2:t1/3", "t1:0,1,2,3;t2:0")) // revert witness
 	doPlan("rr", "-", parseGroup("m1:t1:-:;m2:t1:-:", "t1:0,1;t2:0"))
-	calls += 2
+	calls += 3
 
 	// ---- 3. exhaustive small shapes, all three strategies; sticky: fresh + replan + one more change
 	visit := func(g *Group) {
